@@ -38,6 +38,9 @@ hal.waitForNotifierAlarm = _wrapper
 BASES = [0, 0, 0, 2 ** 31 - 30000, 2 ** 32 - 50000, 2 ** 32 + 7000000]
 
 
+PREV = [None]
+
+
 def run_trace(tid, events):
     hs.pauseTiming()
     # some histories start shortly before / after the FPGA microsecond counter passes 2^31 or 2^32
@@ -48,6 +51,7 @@ def run_trace(tid, events):
     base = wpilib.RobotController.getFPGATime()
     n0 = hs.getNumNotifiers()
     d = None
+    nwait = 0
     steps = []
     for ev in events:
         ev = {k: v for k, v in ev.items() if k != "x"}
@@ -62,6 +66,11 @@ def run_trace(tid, events):
             elif k == "body":
                 hs.stepTimingAsync(ev["b"])
             elif k == "wait":
+                nwait += 1
+                if nwait == 2 and PREV[0] is not None:
+                    import gc
+                    PREV[0] = None
+                    gc.collect()
                 d.wait()
             elif k == "enter":
                 d.__enter__()
@@ -87,6 +96,9 @@ def run_trace(tid, events):
             "err": err or blocked[0]}})
     if d is not None:
         d.free()
+    # the freed object of this history stays referenced for a while: it is dropped in the middle of the next one
+    # (a freed NotifierDelay that is collected late must not touch a handle that now belongs to another one)
+    PREV[0] = d
     return {"id": tid, "shape": {"none": 0}, "steps": steps}
 
 
